@@ -81,3 +81,30 @@ pub(crate) fn validated(fx: &Fix, vote: Vote) -> ValidatedVote {
 pub(crate) fn validated_cert(fx: &Fix, cert: Cert) -> ValidatedCert {
     crate::consensus::validated_cert::kani_vc::trusted(cert, fx.epoch.epoch_info())
 }
+
+/// Calls of the pool's public entry points: ordinary calls under Kani (async plumbing compiled
+/// as plain functions), polled futures natively.
+#[cfg(kani)]
+pub(crate) fn p_add_vote(pool: &mut PoolImpl, v: ValidatedVote) -> Result<(), AddVoteError> {
+    pool.add_vote(v)
+}
+#[cfg(not(kani))]
+pub(crate) fn p_add_vote(pool: &mut PoolImpl, v: ValidatedVote) -> Result<(), AddVoteError> {
+    block_on_ready(pool.add_vote(v))
+}
+#[cfg(kani)]
+pub(crate) fn p_add_cert(pool: &mut PoolImpl, c: ValidatedCert) -> Result<(), AddCertError> {
+    pool.add_cert(c)
+}
+#[cfg(not(kani))]
+pub(crate) fn p_add_cert(pool: &mut PoolImpl, c: ValidatedCert) -> Result<(), AddCertError> {
+    block_on_ready(pool.add_cert(c))
+}
+#[cfg(kani)]
+pub(crate) fn p_standstill(pool: &PoolImpl) {
+    pool.recover_from_standstill()
+}
+#[cfg(not(kani))]
+pub(crate) fn p_standstill(pool: &PoolImpl) {
+    block_on_ready(pool.recover_from_standstill())
+}
